@@ -24,7 +24,7 @@
 
    NOT covered, and a finding: IntVectorMapper::new does not look at the width element.  For the widths the library
    writes (1..64; also 0) `get` is covered for every index.  For a width >= 2^64 - 63 the statement is FALSE in
-   release builds: C08_mapped_get_wide_refuted (finding F13: table read outside LOW_SET through the safe `get`).
+   release builds: C08_mapped_get_wide_refuted (finding F14: table read outside LOW_SET through the safe `get`).
    Real pointers, alignment and the lifetime of the mapping are outside the model (index logic only). *)
 From Coq Require Import NArith List Bool.
 Require Import SDS.Model.Mach SDS.Model.Bits SDS.Model.Raw SDS.Model.IntVec SDS.Model.Mapped SDS.Model.MappedGet.
@@ -135,22 +135,22 @@ Definition C08_no_oob_mapped_get_statement : Prop := forall m file offset v j,
   lenN file < 2 ^ 61 -> offset < 2 ^ 64 ->
   view_new m TyInt file offset = VOk (VwInt v) -> is_oob (im_get_w m v j) = false.
 
-(* Finding F13.  The library-written file of Vec<u64> [2^64-1, 2^64-1, 0, 1, 5] = elements
+(* Finding F14.  The library-written file of Vec<u64> [2^64-1, 2^64-1, 0, 1, 5] = elements
    [5; 2^64-1; 2^64-1; 0; 1; 5]: IntVectorMapper::new(&map, 1) succeeds in both build modes with
    len = width = 2^64-1 over one data word, entirely inside the file; get(2^64-2) passes the assertion; without
    overflow checks `index * width` wraps to bit offset 2, `offset + width` wraps to 1 <= 64, and
    `low_set_unchecked(width)` reads entry 2^64-1 of the 65-entry table LOW_SET.  With overflow checks the
    multiplication panics. *)
 Theorem C08_mapped_get_wide_refuted :
-  (forall m, view_new m TyInt f13_file 1 = VOk (VwInt f13_view)) /\
-  view_inside f13_file (VwInt f13_view) /\
-  im_get_w Release f13_view (2 ^ 64 - 2) = OOB SITE_LOW_SET /\
-  im_get_w Debug f13_view (2 ^ 64 - 2) = Panic POverflow /\
+  (forall m, view_new m TyInt f14_file 1 = VOk (VwInt f14_view)) /\
+  view_inside f14_file (VwInt f14_view) /\
+  im_get_w Release f14_view (2 ^ 64 - 2) = OOB SITE_LOW_SET /\
+  im_get_w Debug f14_view (2 ^ 64 - 2) = Panic POverflow /\
   ~ C08_no_oob_mapped_get_statement.
 Proof.
   destruct int_get_wide_refuted as (Hn & Hi & Hr & Hd).
   split; [exact Hn|]. split; [exact Hi|]. split; [exact Hr|]. split; [exact Hd|].
-  intros H. specialize (H Release f13_file 1 f13_view (2 ^ 64 - 2)).
+  intros H. specialize (H Release f14_file 1 f14_view (2 ^ 64 - 2)).
   rewrite Hr in H. assert (E : true = false); [|discriminate E].
   apply H; [reflexivity|reflexivity|apply Hn].
 Qed.
